@@ -83,7 +83,7 @@ def parseKind (s : String) : Option Bool :=
 
 /-- the options of the request as harness/observe.c (send_request) builds it, in wire order: ETag(s) by variant x, Observe,
     Uri-Path "r<r>", Uri-Query by variant q, Size1 by variant x (lines with a Block2 option are block-wise: not replayed) -/
-def reqOpts (obs : Option Nat) (r q x : Nat) : List ReqOpt :=
+def reqOpts (obs : Option Nat) (r q x : Nat) (fetch : Bool := false) : List ReqOpt :=
   (if x = 1 ∨ x = 3 then [{ num := 4, val := [0x11, 0x22] }] else []) ++
   (if x = 2 ∨ x = 5 then [{ num := 4, val := [0x33] }] else []) ++
   (if x = 3 then [{ num := 4, val := [0x44, 0x55, 0x66, 0x77, 0x88] }] else []) ++
@@ -92,22 +92,34 @@ def reqOpts (obs : Option Nat) (r q x : Nat) : List ReqOpt :=
    | some v => [{ num := 6, val := [v] }]
    | none => []) ++
   [{ num := 11, val := [114, 48 + r] }] ++
+  (if fetch then [{ num := 12, val := [0x2a] }] else []) ++
   (if q = 1 then [{ num := 15, val := [97, 61, 49] }]
    else if q = 2 then [{ num := 15, val := [98, 61, 50] }]
    else if q = 3 then [{ num := 15, val := [97] }, { num := 15, val := [98] }]
    else if q = 4 then [{ num := 15, val := [97, 15, 0, 98] }]
+   else if q = 5 then [{ num := 15, val := [97] }]
    else []) ++
   (if x = 4 then [{ num := 60, val := [] }] else []) ++
   (if x = 5 then [{ num := 60, val := [2] }] else [])
 
-/-- `c:r:t:q:k:mid[:x]` → (c, r, token = tokNat of the token bytes of index t, cache key of the request (Model/ObserveKey.lean), CON?, mid) -/
+/-- harness/observe.c fetch_pl: the payload of a FETCH request by variant p (1 empty, 2 "A", 3 "AB", 4 the bytes a further
+    Uri-Query option "b" would feed into the digest); p = 0 is a GET -/
+def fetchPayload (p : Nat) : List Nat :=
+  if p = 2 then [0x41] else if p = 3 then [0x41, 0x42] else if p = 4 then [0x0f, 0, 1, 0, 0, 0, 0x62] else []
+
+/-- the cache key of the scripted request: method code 1 (GET) for p = 0, else 5 (FETCH) with Content-Format 42 and payload p -/
+def scriptKey (obs : Option Nat) (r q x p : Nat) : Nat :=
+  if p = 0 then obsKey (reqOpts obs r q x) else reqKey 5 (reqOpts obs r q x true) (fetchPayload p)
+
+/-- `c:r:t:q:k:mid[:x[:p]]` → (c, r, token = tokNat of the token bytes of index t, cache key of the request (Model/ObserveKey.lean), CON?, mid) -/
 def parseReq (obs : Option Nat) (f : List String) (ncli nres : Nat) : Option (Nat × Nat × Nat × Nat × Bool × Nat) :=
-  let go (c r t q k mid : String) (x : Nat) : Option (Nat × Nat × Nat × Nat × Bool × Nat) := do
+  let go (c r t q k mid : String) (x p : Nat) : Option (Nat × Nat × Nat × Nat × Bool × Nat) := do
     let c ← c.toNat?; let r ← r.toNat?; let t ← t.toNat?; let q ← q.toNat?; let k ← parseKind k; let mid ← mid.toNat?
-    if c < ncli ∧ r < nres ∧ t ≤ maxTokIdx ∧ q ≤ 4 ∧ mid ≤ 65535 ∧ x ≤ 5 then some (c, r, tokNat (tokenBytes c t), obsKey (reqOpts obs r q x), k, mid) else none
+    if c < ncli ∧ r < nres ∧ t ≤ maxTokIdx ∧ q ≤ 5 ∧ mid ≤ 65535 ∧ x ≤ 5 ∧ p ≤ 4 then some (c, r, tokNat (tokenBytes c t), scriptKey obs r q x p, k, mid) else none
   match f with
-  | [c, r, t, q, k, mid] => go c r t q k mid 0
-  | [c, r, t, q, k, mid, x] => do let x ← x.toNat?; go c r t q k mid x
+  | [c, r, t, q, k, mid] => go c r t q k mid 0 0
+  | [c, r, t, q, k, mid, x] => do let x ← x.toNat?; go c r t q k mid x 0
+  | [c, r, t, q, k, mid, x, p] => do let x ← x.toNat?; let p ← p.toNat?; if p = 0 then none else go c r t q k mid x p
   | _ => none
 
 def parseEvent (s : String) (ncli nres : Nat) : Option Event :=
@@ -163,6 +175,7 @@ def validBlk (f : List String) (ncli : Nat) (rs : List String) : Bool :=
 def validEventB (s : String) (ncli : Nat) (rs : List String) : Bool :=
   match s.splitOn ":" with
   | "blk" :: f => validBlk f ncli rs
+  | [_, _, r, _, _, _, _, _, _] => !isBlockRes (rs.getD (r.toNat?.getD 0) "") && (parseEvent s ncli rs.length).isSome   -- no FETCH on a block-wise resource
   | _ => (parseEvent s ncli rs.length).isSome
 
 /-- the answer for a line with a block-wise resource: validated, never replayed -/
